@@ -9,7 +9,7 @@ from checks.common import swarm
 ID = 'C20'
 LEVEL = 'exploration'
 NEEDS = ('threads', 'proc')
-QUICK = dict(runs=2500, wall=85)
+QUICK = dict(runs=7500, wall=85)
 THOROUGH = dict(runs=150000, wall=1500)
 RULE = ('child target (simulated process started through mpservice Process) emits k in {0,1,4,50,300,1200} records of size s in {20B,100B,2kB} '
         'at mixed levels through its own (per-process) root logger, the last one immediately before it returns / raises / sys.exit()s (also with a '
